@@ -62,20 +62,23 @@ def run(ctx):
     cex, nontriv = [], set()
     # (a) fresh workers per hash seed (small pools: each worker still serves several requests, histories differ per seed)
     base_t, base_s = None, None
+    slow = set()   # programs whose solve run is slow or does not finish within the watchdog (exponential head-formula unfolding): not used in histories
     for hs in seeds:
         pool = ctx.impl(hashseed=hs)
         rt = [canon(x) for x in pool.run([{'cmd': 'transform', 'texts': t} for _, t in progs])]
-        rs = [canon(x) for x in pool.run([{'cmd': 'solve', 'texts': t, 'imax': H + 1, 'istop': 'UNKNOWN'} for _, t in progs], timeout=60)]
+        raw = pool.run([{'cmd': 'solve', 'texts': t, 'imax': H + 1, 'istop': 'UNKNOWN'} for _, t in progs], timeout=60)
+        slow.update(i for i, x in enumerate(raw) if x.get('status') in ('timeout', 'died') or x.get('wall', 0) > 5)
+        rs = [canon(x) if x.get('status') not in ('timeout', 'died') else None for x in raw]
         if base_t is None:
             base_t, base_s = rt, rs
             for (p, t), x, y in zip(progs, rt, rs):
-                if x[0] == 'ok' and y[0] == 'ok' and y[1] != '[]':
+                if x[0] == 'ok' and y is not None and y[0] == 'ok' and y[1] != '[]':
                     nontriv.add(tuple(t))
             continue
         for (p, t), a, b, c, d in zip(progs, base_t, rt, base_s, rs):
             if a != b:
                 cex.append({'key': 'c14:hashseed:' + ' '.join(t).replace('\n', ' '), 'what': 'transform output differs between PYTHONHASHSEED=%s and %s' % (seeds[0], hs), 'input': {'texts': t, 'kind': 'hashseed', 'seeds': [seeds[0], hs]}})
-            elif c != d:
+            elif c is not None and d is not None and c != d:   # a run cut off by the watchdog is not compared
                 cex.append({'key': 'c14:hashseed-solve:' + ' '.join(t).replace('\n', ' '), 'what': 'answer sets differ between PYTHONHASHSEED=%s and %s' % (seeds[0], hs), 'input': {'texts': t, 'kind': 'hashseed-solve', 'seeds': [seeds[0], hs], 'H': H}})
     # (b) one long-lived process, random history; (c) interleaved threads
     rng = ctx.rng('history')
@@ -85,7 +88,7 @@ def run(ctx):
         idx = [rng.randrange(len(progs)) for _ in range(12)]
         ops = []
         for i in idx:
-            ops.append(['transform', progs[i][1]] if rng.random() < 0.6 else ['solve', progs[i][1], H])
+            ops.append(['transform', progs[i][1]] if rng.random() < 0.6 or i in slow else ['solve', progs[i][1], H])
         threads = 1 if j % 2 == 0 else 3
         hist_reqs.append({'cmd': 'history', 'ops': ops, 'threads': threads})
         metas.append((idx, ops, threads))
@@ -100,7 +103,7 @@ def run(ctx):
                 cex.append({'key': 'c14:history:' + ' '.join(op[1]).replace('\n', ' '), 'what': '%s in a long-lived process (%d threads, after other calls) differs from the result of a fresh process' % (op[0], threads),
                             'input': {'ops': ops, 'threads': threads, 'kind': 'history', 'H': H}})
                 break
-    cov = {'evaluations': len(progs) * 2 * len(seeds) + sum(len(m[1]) for m in metas), 'distinct_nontrivial': len(nontriv),
+    cov = {'evaluations': len(progs) * 2 * len(seeds) + sum(len(m[1]) for m in metas), 'distinct_nontrivial': len(nontriv), 'slow_programs_not_solved_in_histories': len(slow),
            'rule': 'programs with 3-6 future predicates (arguments, classical negation), look-ahead constraints of depth <= 3, head formulas and body formulas, split over 1-3 input texts; '
                    'transform output and answer sets (horizons 0..%d) compared across PYTHONHASHSEED in %s (fresh interpreters), %d random histories of 12 calls in one process (half of them '
                    'interleaved in 3 threads); non-trivial = distinct accepted program with at least one answer set' % (H, seeds, nh),
